@@ -332,4 +332,3 @@ package exif2
 //@   requires b.pos <= b.len && b.len <= 84
 //@   modifies b.tag, b.len, b.pos
 //@   ensures b.pos == 0 && b.len == old(b.len) - old(b.pos)
-//@   ensures old(b.pos) < old(b.len) ==> b.tag[0] == old(b.tag[b.pos])
